@@ -56,7 +56,7 @@ func c05Run(c *Ctx) {
 	k := c.K
 	if c.W.Tier != "race" && ((c.W.Tier == "thorough" && k >= c05Prod*30) || (c.W.Tier != "thorough" && k >= c05Prod)) {
 		// the environment variable an option reads is the one its declaration names NOW
-		hc := &DeclCfg{MaxDepth: 2, MaxFan: 2, PCmds: 50, Types: c05Types[:13], OptsMin: 1, OptsMax: 3, SubGroupsMax: 2, NestMax: 2,
+		hc := &DeclCfg{MaxDepth: 2, MaxFan: 2, PCmds: 50, Types: c05Types[:13], OptsMin: 1, OptsMax: 3, SubGroupsMax: 2, PInline: 20, NestMax: 2,
 			PEnv: 80, PEnvNS: 80, PEnvDelim: 50, PDefault: 30, PByTag: 50, PExec: 30, PSubOptional: 100, PNamespace: 20,
 			ParserOpts: []flags.Options{0, flags.PassDoubleDash}, EnvDelims: []string{"", "_", "__", "-"}}
 		dh := GenDecl(c.Sub("dh"), hc)
